@@ -196,6 +196,13 @@ class State:
             f = f.e
         if z3.is_true(f):
             return
+        # the same formula again (z3 terms are hash-consed: equal formulas have equal ids, and the path condition keeps
+        # every assumed formula alive): nothing to add -- instantiation helpers assume the same axioms many times
+        fid = f.get_id()
+        seen = self.__dict__.setdefault("_assumed_ids", set())
+        if fid in seen:
+            return
+        seen.add(fid)
         if _has_quantifier(f):
             self.has_quant = True
             self.n_quantified += 1
@@ -563,30 +570,20 @@ class State:
         self.trace.append(ev)
 
 
-_HAS_QUANT = None
+_HQ_PROBE = None
 
 
 def _has_quantifier(f, cap=4000):
-    """Does the z3 formula contain a quantifier? (a huge formula -- more than `cap` distinct sub-expressions -- counts
-    as 'yes').  Decided by z3's own probes (`has-quantifiers`, `num-exprs`) on a one-formula goal: the walk over the
-    AST in Python that this replaces took a third of the wall time of tasks that assume many large ground formulas.
-    Same answers as the walk (`_has_quantifier_walk`, kept as the reference; compared on every formula when
-    PYVC_CHECK_PROBES=1)."""
-    global _HAS_QUANT
-    if not z3.is_expr(f):
-        return False
-    if _HAS_QUANT is None:
-        _HAS_QUANT = (z3.Probe("has-quantifiers"), z3.Probe("num-exprs"))
-    g = z3.Goal()
-    g.add(f)
-    r = _HAS_QUANT[0](g) != 0 or _HAS_QUANT[1](g) > cap
-    if os.environ.get("PYVC_CHECK_PROBES") and r != _has_quantifier_walk(f, cap) and not (not r and _HAS_QUANT[1](g) > cap - 50):
-        raise RuntimeError(f"has-quantifiers probe disagrees with the AST walk on {_short(f)}")
-    return r
-
-
-def _has_quantifier_walk(f, cap=4000):
-    """Reference implementation of `_has_quantifier`: bounded search over the AST."""
+    """Does the z3 formula contain a quantifier?  Asked of z3 itself (probe `has-quantifiers`: a cached flag of the
+    AST, constant time in practice); the Python walk below is the fallback for a non-boolean term
+    (bounded search; there a huge formula counts as 'yes')."""
+    global _HQ_PROBE
+    if z3.is_expr(f) and z3.is_bool(f):
+        if _HQ_PROBE is None:
+            _HQ_PROBE = z3.Probe("has-quantifiers")
+        g = z3.Goal()
+        g.add(f)
+        return _HQ_PROBE(g) != 0.0
     todo, seen = [f], set()
     while todo:
         e = todo.pop()
